@@ -134,7 +134,7 @@ func runC03(w *mon.W) {
 	c03Scale(w)
 	c03Twins(w)
 	r := w.Rng
-	total := w.Share(w.Pick(3500, 100000))
+	total := w.Share(w.Pick(10000, 100000))
 	for it := 0; it < total; it++ {
 		n := 1 + r.IntN(w.Pick(5, 7))
 		s := chain.FullConformant(r, n, 5)
@@ -432,7 +432,7 @@ func runC03(w *mon.W) {
 // invocation must be denied.
 func c03Heterogeneous(w *mon.W) {
 	r := w.Rng
-	total := w.Share(w.Pick(5000, 80000))
+	total := w.Share(w.Pick(15000, 80000))
 	for it := 0; it < total; it++ {
 		n := 1 + r.IntN(3)
 		s := chain.Conformant(r, n, 0)
@@ -512,7 +512,7 @@ func containsKind(s ref.Stmt, k string) bool {
 // not depend on what the shared delegations were matched against before.
 func c03Scale(w *mon.W) {
 	r := w.Rng
-	total := w.Share(w.Pick(240, 5000))
+	total := w.Share(w.Pick(800, 5000))
 	counts := []int{1, 2, 5, 17, 33, 65, 130}
 	for it := 0; it < total; it++ {
 		n := 1 + r.IntN(3)
@@ -647,7 +647,7 @@ func flipNil(e error) error {
 // denied. Catches statements merged, cached or de-duplicated by a rendering.
 func c03Twins(w *mon.W) {
 	r := w.Rng
-	total := w.Share(w.Pick(600, 12000))
+	total := w.Share(w.Pick(2000, 12000))
 	for it := 0; it < total; it++ {
 		n := 1 + r.IntN(3)
 		s := chain.Conformant(r, n, 0)
